@@ -42,6 +42,8 @@ def run(rep, fb, tier):
     kbound.rule_kbound(rep, fb)
     guards.rule_const_subscript(rep, fb)
     guards.rule_division(rep, fb)
+    from ..rules.kernels import rule_kernel_siblings
+    rule_kernel_siblings(rep, fb)
 
     # ---- exhaustiveness: every extern kernel symbol defined in src/cpu-kernels/awkward_*.cpp is specified
     rE = rep.rule("KSIG.exhaustive", "every non-template awkward_* function defined under src/cpu-kernels is a specialisation listed in the specification", floor=600)
